@@ -236,7 +236,7 @@ Proof.
   apply ty_attrs_ind.
   - intros c a IHa up st nm nested H Hup Hnm. cbn [ty_ok] in H. apply andb_prop in H as [Ht Ha].
     destruct (tinfo_ok_parts _ Ht) as (Q1 & Q2 & Q3 & Q4).
-    assert (Hid : quote_free (snd (if nested then filter_make_unique st (filter_tag_id (ci_t c)) else (st, filter_tag_id (ci_t c)))) = true)
+    assert (Hid : quote_free (snd (if nested then filter_make_unique st (filter_tag_id (ci_t c) ++ nested_id_sep) else (st, filter_tag_id (ci_t c)))) = true)
       by (destruct nested; cbn [snd]; qf2).
     assert (Hdoc : forall d (b : bool), pieces_ok (match d with [] => [] | _ :: _ => if b then [] else doc_pre (de_ti cf) [(k_class, s_docs)] d end) = true)
       by (intros d b; rewrite Hde_ti; destruct d; [reflexivity|destruct b; [reflexivity|pok]]).
@@ -247,7 +247,7 @@ Proof.
       * apply Hdoc.
       * destruct a; [pok|apply IHa; assumption|apply IHa; assumption].
   - intros es dep d e IHe up st nm nested H Hup Hnm. cbn [ty_ok] in H. apply andb_prop in H as [H He]. apply andb_prop in H as [Hes Hd].
-    assert (Hid : quote_free (snd (if nested then filter_make_unique st (filter_tag_id (arr_tinfo es)) else (st, filter_tag_id (arr_tinfo es)))) = true)
+    assert (Hid : quote_free (snd (if nested then filter_make_unique st (filter_tag_id (arr_tinfo es) ++ nested_id_sep) else (st, filter_tag_id (arr_tinfo es)))) = true)
       by (destruct nested; cbn [snd]; qf2).
     cbn [emit_ty]. cbv zeta. cbn [snd]. unfold dep_class, div_class.
     rewrite pieces_ok_app. apply andb_true_intro. split.
@@ -336,3 +336,24 @@ Proof.
   intros Hc Hn. unfold cfg_docs_escaped in Hc. apply andb_prop in Hc as [Hc H4]. apply andb_prop in Hc as [Hc H3]. apply andb_prop in Hc as [H1 H2].
   apply emit_tree_wf. apply ns_page_pieces_ok; assumption.
 Qed.
+
+(* ---------- type pages (type_base.j2) ---------- *)
+Lemma qf_full_namespace_of s : quote_free s = true -> quote_free (full_namespace_of s) = true.
+Proof.
+  intros H. unfold full_namespace_of, quote_free in *. rewrite forallb_rev.
+  assert (G : forallb (fun c => negb ((c =? 60) || (c =? 62) || (c =? 34) || (c =? 39)))
+                      (drop_while (fun c => negb (c =? 46)) (rev s)) = true) by (apply forallb_drop_while; rewrite forallb_rev; exact H).
+  destruct (drop_while (fun c => negb (c =? 46)) (rev s)) as [|x r]; [reflexivity|]. cbn [forallb] in G. apply andb_prop in G as [_ G]. exact G.
+Qed.
+
+Theorem type_page_pieces_ok cf c : de_tb cf = true -> tinfo_ok (ci_t c) = true -> pieces_ok (type_page cf c) = true.
+Proof.
+  intros Hde Ht. destruct (tinfo_ok_parts _ Ht) as (Q1 & Q2 & Q3 & Q4).
+  pose proof (qf_full_namespace_of _ Q1) as Q5.
+  unfold type_page. destruct (ci_service c); [reflexivity|]. rewrite Hde. unfold version_text.
+  apply pieces_ok_elem; [reflexivity|attrs2|]. pok.
+Qed.
+
+Theorem type_page_wf_unconditional cf c :
+  de_tb cf = true -> tinfo_ok (ci_t c) = true -> wf_tokens (scan None (render (type_page cf c))) = true.
+Proof. intros Hde Ht. apply type_page_wf. apply type_page_pieces_ok; assumption. Qed.
